@@ -1,16 +1,20 @@
 #!/bin/bash
-# replay/run_samples.sh <repo> [sample-name-prefix...]  — compile+run samples, compare with their "// want:" line.
+# replay/run_samples.sh <repo> [sample-name-prefix...]  — compile+run samples (8 at a time), compare with their "// want:" line.
 repo=$1; shift
 pats=("$@"); [ ${#pats[@]} -eq 0 ] && pats=("")
-fail=0
-for p in "${pats[@]}"; do
-for f in /verif/replay/samples/${p}*.go; do
+one() {
+  repo=$1; f=$2
   want=$(head -1 "$f" | sed 's|^// want: ||')
   got=$(/verif/replay/cotool.sh "$repo" "$f" 2>&1 | tail -1)
   ok=no
   if [ "$got" == "$want" ]; then ok=yes; fi
   case "$want" in REJECT-OR*) w2=${want#REJECT-OR }; if [ "$got" == "$w2" ] || [[ "$got" == COMPILER-PANIC:*"in: "* ]]; then ok=yes; fi;; esac
-  if [ $ok == yes ]; then echo "SAMPLE-OK   $(basename $f .go): $got" | cut -c1-200; else echo "SAMPLE-FAIL $(basename $f .go): want $want got $got" | cut -c1-300; fail=1; fi
-done
-done
-exit $fail
+  if [ $ok == yes ]; then echo "SAMPLE-OK   $(basename $f .go): $got" | cut -c1-200; else echo "SAMPLE-FAIL $(basename $f .go): want $want got $got" | cut -c1-300; fi
+}
+export -f one
+files=()
+for p in "${pats[@]}"; do for f in /verif/replay/samples/${p}*.go; do [ -e "$f" ] && files+=("$f"); done; done
+out=$(printf '%s\n' "${files[@]}" | sort -u | xargs -P 8 -I{} bash -c 'one "$0" "$1"' "$repo" {} | sort -k2)
+echo "$out"
+if echo "$out" | grep -q '^SAMPLE-FAIL'; then exit 1; fi
+exit 0
